@@ -131,7 +131,15 @@ func VHPubDeliver() {
 	evs := c10events()
 	variant := vChoose("variant", 6)
 	s.receivers()
-	s.publish(variant, evs)
+	pub := append([]int(nil), evs...)
+	s.publish(variant, pub)
+	// the caller owns its slice again once the publish call has returned
+	for i := range pub {
+		pub[i] = vInt("reused")
+		for _, e := range evs {
+			vAssume(pub[i] != e)
+		}
+	}
 	timeoutOn := s.ps.PubTimeoutAfter > 0
 	vWait() // quiescence: receivers are blocked on their (still open) channels
 	for i := range s.subs {
